@@ -104,6 +104,16 @@ def bounded(tier, seed):
 		sets = [A, B, C]
 		rnd.shuffle(sets)
 		run({'kind': 'triple', 'A': sets[0], 'B': sets[1], 'C': sets[2], 'dts': [fit(x, sg) for x in sets]})
+	# size skew (one set with hundreds of elements, the others tiny and aliasing it modulo a narrower width)
+	for _ in range(40 if tier == 'quick' else 600):
+		bitsl = rnd.choice([16, 32])
+		size = rnd.choice([80, 600, 1500])
+		big = sorted(rnd.sample(range(0, min(2 ** bitsl, 20000)), size))
+		small1 = sorted({x + 2 ** bitsl for x in rnd.sample(big, 2)} | ({rnd.choice(big)} if rnd.random() < .5 else set()))
+		small2 = sorted({x + 2 ** bitsl * 2 for x in rnd.sample(big, 1)} | {7})
+		sets = [big, small1, small2]
+		rnd.shuffle(sets)
+		run({'kind': 'triple', 'A': sets[0], 'B': sets[1], 'C': sets[2], 'dts': [fit(x, False) for x in sets]})
 	for _ in range(40 if tier == 'quick' else 400):
 		u = rnd.randrange(1, 2 ** 14)
 		run({'kind': 'decrease', 's': rnd.randrange(0, u + 1), 'u': u})
